@@ -278,6 +278,64 @@ func (e *Explorer) noteAlloc(n int64, instr ssa.Instruction) {
 	}
 }
 
+// splitHugeAlloc handles a symbolic allocation size under a declared budget:
+// the path on which the size exceeds what is left of the budget ends in the
+// budget panic (with the size pushed beyond what the Go run time accepts when
+// that is feasible, so that the native replay panics instead of allocating);
+// the other path continues with a size within the budget.
+func (e *Explorer) splitHugeAlloc(n value) {
+	s, ok := n.(sym)
+	if !ok || e.allocBudget <= 0 {
+		return
+	}
+	bits, _ := kindBits(s.k)
+	left := e.allocBudget - e.allocTotal
+	if left < 0 {
+		left = 0
+	}
+	if bits < 64 && uint64(left) >= uint64(1)<<uint(bits) {
+		return // the size type cannot reach the budget
+	}
+	over := mkCmp("bvult", mkConst(uint64(left), bits), s.t)
+	if e.Branch(over) {
+		if bits == 64 {
+			huge := mkCmp("bvult", mkConst(1<<48, bits), s.t)
+			if r, m := e.solver.Check(append(append([]*Term{}, e.pc...), huge), "feas"); r == "sat" {
+				e.addPC(huge)
+				e.setModel(m)
+			}
+		}
+		e.allocTotal = e.allocBudget + 1
+		panic(runtimePanic(fmt.Sprintf("zz-alloc-budget exceeded: symbolic allocation size can exceed the remaining budget %d", left)))
+	}
+}
+
+// maxCells bounds what one path may materialise (interpreter memory, not a
+// property of the target): beyond it the path ends as inconclusive.
+const maxCells = 1 << 22
+
+func (e *Explorer) noteCells(n int64) {
+	e.cells += n
+	if e.cells > maxCells {
+		panic(pathAbort{"budget", fmt.Sprintf("path materialises more than %d values", maxCells)})
+	}
+}
+
+// cellCount is the number of scalar cells of a zero value of t.
+func cellCount(t types.Type) int64 {
+	switch u := t.Underlying().(type) {
+	case *types.Struct:
+		var n int64 = 1
+		for i := 0; i < u.NumFields(); i++ {
+			n += cellCount(u.Field(i).Type())
+		}
+		return n
+	case *types.Array:
+		return 1 + u.Len()*cellCount(u.Elem())
+	}
+	return 1
+}
+
 func (e *Explorer) noteAppend(l, c, add int) {
 	if l+add > c {
 		e.noteAlloc(int64(l+add), nil)
